@@ -79,6 +79,8 @@ def raw_path(ctx, tier):
     texts += ['letter = { \'a\'..\'c\' }\nentry = { PUSH(letter) ~ ":" }\nmain = { entry{1,3} ~ letter ~ POP }\nmost = { entry{,2} ~ letter ~ POP }\n'
               'ex = ${ (PUSH("a") ~ ":"){2} ~ POP ~ POP? }\nmn = ${ (PUSH("a" | "b") ~ ":"){1,} ~ PEEK }\ndr = ${ PUSH("a") ~ PUSH("b") ~ (DROP ~ ":"){,2} ~ PEEK }',
               'COMMENT = { "#" }\nWHITESPACE = { " " }\nit = @{ "x"+ }\nbounded = { it{2,3} }\nexact = { it{2} }\nupto = { it{,2} ~ "." }',
+              'WHITESPACE = { " " }\nmain = { (packed | triple) ~ ";"? ~ rest }\ntriple = { num{, 3} }\npacked = @{ ASCII_DIGIT{, 3} ~ &";" }\nrest = { num* }\nnum = @{ ASCII_DIGIT ~ ASCII_DIGIT* }',
+              'word = @{ ASCII_ALPHA+ }\nargs = !{ word ~ ("," ~ word)* }\ncall = ${ word ~ "(" ~ args ~ ")" }\nindex = @{ "[" ~ args ~ "]" }\nnormal = { args }\nvia = ${ "<" ~ normal ~ ">" }\nWHITESPACE = _{ " " }',
               'item = { "x" }\nlist = { item{2,3} ~ "." }\nopt2 = { ("x" | "y"){,2} ~ "x"? }\nnest = { (item{1,2} ~ ","){1,2} }']
     rng = Rng(777)
     cand = [grammar.rand_grammar(rng.fork("x%d" % i)) for i in range(40 if tier == "quick" else 300)]
@@ -105,7 +107,7 @@ def raw_path(ctx, tier):
     known = [k for k in load_known_findings() if k.get("status") == "known" and k.get("class") == "optimizer_rewrote_rule"
              and k.get("property") == "C20"]
     pending = []
-    n = t2_bad = n_direct = 0
+    n = t2_bad = n_direct = tok_bad = 0
     for a, b, x, aa, pe, gg in dcorp.records_pe(run):
         n += 1
         sid = a[:a.index("|")]
@@ -132,6 +134,16 @@ def raw_path(ctx, tier):
         gv = gg[:gg.index(":")] if gg.startswith("ok@") else gg
         if tv != gv:
             pending.append((g, sid, f["_hex"] if "_hex" in f else a.split("|")[2], tv, gv))
+        elif tv.startswith("ok@") and gencore.ws_variant_env(g) is None:
+            # the pair tree: same as pest's pruned tree also with the optimizer off (known class WsNonAtomic excluded: C02's business)
+            rn_idx = {i + 1 for i, nm in enumerate(g.rules) if g.kinds[nm] in ("atomic", "compound")}
+            want = gencore.show_toks(gencore.prune(gencore.parse_toks(gg[gg.index(":") + 1:]), rn_idx))
+            if f.get("TK") != want:
+                tok_bad += 1
+                if tok_bad <= 3:
+                    ctx.violation("with pest_optimizer = false the pair tree of %s differs from pest's: typed %s, pest (pruned) %s"
+                                  % (sid, str(f.get("TK"))[:160], want[:160]),
+                                  {"grammar": g.text, "options": {"pest_optimizer": False}, "input_hex": a.split("|")[2], "impl": a, "spec": gg})
     # classify: does the optimized translation (faithful model) give the spec's answer?
     n_known = 0
     ex = None
@@ -168,7 +180,7 @@ def raw_path(ctx, tier):
                          "optimizer off %s, pest %s]" % (n_known, ex[1], ex[2], ex[3], ex[4]))
     ctx.evaluations += n
     ctx.coverage.update({"raw_grammars_compiled": len(ok), "raw_cases": n, "raw_t2_mismatches": t2_bad,
-                         "raw_vs_spec_differences": len(pending), "raw_known_class_optimizer_rewrote_rule": n_known})
+                         "raw_vs_spec_differences": len(pending), "raw_token_tree_differences": tok_bad, "raw_known_class_optimizer_rewrote_rule": n_known})
 
 
 def check(ctx):
